@@ -262,45 +262,56 @@ func mergeUlimit(_ any, o any, p tree.Path) (any, error) {
 	return o, nil
 }
 
+// mergeIPAMConfig merges ipam pools by subnet: a pool of the override with the subnet of an existing pool is merged
+// into it, any other pool is appended; pools the override does not mention are kept
 func mergeIPAMConfig(c any, o any, path tree.Path) (any, error) {
-	var ipamConfigs []any
-	for _, original := range c.([]any) {
-		right, err := convertIntoMapping(original, nil, path)
+	base, err := ipamPools(c, path)
+	if err != nil {
+		return nil, err
+	}
+	other, err := ipamPools(o, path)
+	if err != nil {
+		return nil, err
+	}
+	ipamConfigs := make([]any, 0, len(base)+len(other))
+	for _, pool := range base {
+		ipamConfigs = append(ipamConfigs, pool)
+	}
+	for _, left := range other {
+		index := slices.IndexFunc(ipamConfigs, func(a any) bool {
+			return sameScalar(a.(map[string]any)["subnet"], left["subnet"])
+		})
+		if index < 0 {
+			ipamConfigs = append(ipamConfigs, left)
+			continue
+		}
+		merged, err := mergeMappings(ipamConfigs[index].(map[string]any), left, path)
 		if err != nil {
 			return nil, err
 		}
-		for _, override := range o.([]any) {
-			left, err := convertIntoMapping(override, nil, path)
-			if err != nil {
-				return nil, err
-			}
-			if left["subnet"] != right["subnet"] {
-				// check if left is already in ipamConfigs, add it if not and continue with the next config
-				if !slices.ContainsFunc(ipamConfigs, func(a any) bool {
-					return a.(map[string]any)["subnet"] == left["subnet"]
-				}) {
-					ipamConfigs = append(ipamConfigs, left)
-					continue
-				}
-			}
-			merged, err := mergeMappings(right, left, path)
-			if err != nil {
-				return nil, err
-			}
-			// find index of potential previous config with the same subnet in ipamConfigs
-			indexIfExist := slices.IndexFunc(ipamConfigs, func(a any) bool {
-				return a.(map[string]any)["subnet"] == merged["subnet"]
-			})
-			// if a previous config is already in ipamConfigs, replace it
-			if indexIfExist >= 0 {
-				ipamConfigs[indexIfExist] = merged
-			} else {
-				// or add the new config to ipamConfigs
-				ipamConfigs = append(ipamConfigs, merged)
-			}
-		}
+		ipamConfigs[index] = merged
 	}
 	return ipamConfigs, nil
+}
+
+// ipamPools checks that an ipam config is a sequence (or empty) and returns its pools as mappings
+func ipamPools(v any, path tree.Path) ([]map[string]any, error) {
+	if v == nil {
+		return nil, nil
+	}
+	seq, ok := v.([]any)
+	if !ok {
+		return nil, fmt.Errorf("cannot override %s", path)
+	}
+	pools := make([]map[string]any, 0, len(seq))
+	for _, e := range seq {
+		pool, err := convertIntoMapping(e, nil, path)
+		if err != nil {
+			return nil, err
+		}
+		pools = append(pools, pool)
+	}
+	return pools, nil
 }
 
 func convertIntoMapping(a any, defaultValue map[string]any, p tree.Path) (map[string]any, error) {
